@@ -401,7 +401,9 @@ def main(argv):
         for k, v in input_stats(cases).items():
             stats[k] = stats.get(k, 0) + v
         samples += [cases[len(cases) // 3], cases[-1]]
-    if "--replay" not in argv:
+    if "--replay" not in argv and not V.violations:
+        # nothing was rejected, so the recorded values are the reference's: make sure the
+        # interesting situations were really met
         if stats["defect_clause_on_labelled_closed_manifold"] < 10 or stats["watertight_observed"] < 10 \
                 or stats["adjacent_pairs_observed"] < 100 or stats["edge_three_or_more_times"] < 100:
             raise MachineryError(f"enumeration nearly empty: {stats}")
